@@ -27,8 +27,14 @@ def build(repo):
     u.harness('neg_float', 'filter::eval_unary_op::Neg(float)::negates', props=['C12'])
     for k in ('none', 'null', 'bool', 'int', 'float'):
         u.harness('unary_' + k, 'filter::eval_unary_op::{Not,IsNull,IsNotNull}(%s)::partition' % k, props=['C11'])
-    for a, b in (('int', 'int'), ('float', 'float'), ('int', 'float'), ('float', 'int')):
-        u.harness('cmp_%s_%s' % (a, b), 'filter::eval_binary_op::{Lt,Le,Gt,Ge,Eq,Ne}(%s,%s)::complementary' % (a, b), props=['C11', 'C12'])
+    gc = []
+    for a in (2, 3):
+        for b in (2, 3):
+            for part, pname in ((0, 'lt_ge'), (1, 'gt_le'), (2, 'eq_ne')):
+                n = 'cmp_%s_%s_%s' % (pname, K[a], K[b])
+                gc.append('cmp!(%s, %d, %d, %d);' % (n, part, a, b))
+                u.harness(n, 'filter::eval_binary_op::{%s}(%s,%s)::complementary' % (pname.replace('_', ','), K[a], K[b]), props=['C11', 'C12'], timeout=900)
+    text = text.replace('//@GENERATED-CMP@', '\n    '.join(gc))
     text = text.replace('//@GENERATED-ARITH@', '\n    '.join(ga)).replace('//@GENERATED-LOGIC@', '\n    '.join(gl))
     u.append(REL, text)
     u.functions = [('ExpressionPredicate::{eval_binary_op, eval_arithmetic (+ the four closures), eval_modulo, eval_unary_op, values_equal, compare_values}', REL)]
